@@ -205,6 +205,63 @@ def _with_timing(rng, ids, bs, cf, vis, mode):
             'max_time_diff': max_time_diff, 'min_bs': 2, 'mode': mode}
 
 
+def _retimed(rng, room, vis, mode):
+    ids = sorted(int(b) for b in room['bs'])
+    bs = {b: room['bs'][str(b)] for b in ids}
+    return _with_timing(rng, ids, bs, room['cf'], vis, mode)
+
+
+def gen_sparse_link_room(rng, variant=None, need_premise=True, tries=12):
+    """21..40 poses, 3..5 stations, partial visibility in which one station pair is shared by exactly ONE sample:
+    'first_pair_once'  the pair of the FIRST sample (which defines the reference frame) is never seen together again;
+    'only_link_once'   one station is linked to the rest through a single sample (and is seen nowhere else).
+    With need_premise the room is re-drawn (up to `tries` times) until the premises of the decision-logic theorems hold
+    for it (evaluated from the truth), so that nothing but a right answer is acceptable."""
+    variant = variant or rng.choice(['first_pair_once', 'only_link_once'])
+    last = None
+    for _ in range(tries):
+        n_bs = rng.randint(3, 5)
+        room = gen_room(rng, n_bs=n_bs, n_cf=rng.randint(21, 40), mode='full')
+        ids = sorted(int(b) for b in room['bs'])
+        rng.shuffle(ids)
+        n = len(room['cf'])
+        if variant == 'first_pair_once':
+            a, b, rest = ids[0], ids[1], ids[2:]
+            vis = [[a, b]]
+            for k in range(1, n):
+                # never a and b together; c = rest[0] links both
+                side = [a] if k % 2 else [b]
+                others = rng.sample(rest, rng.randint(1, len(rest)))
+                if k <= 2:
+                    others = list(set(others) | {rest[0]})
+                vis.append(side + others if rng.random() < 0.8 or len(others) < 2 else others)
+        else:
+            d, c, rest = ids[0], ids[1], ids[1:]
+            at = rng.randrange(1, n)
+            vis = []
+            for k in range(n):
+                if k == at:
+                    vis.append([c, d])
+                else:
+                    vis.append(rng.sample(rest, rng.randint(2, len(rest))))
+            if n_bs == 3:
+                vis[0] = list(rest)
+            # make sure the rest is linked: the first sample sees all of the rest
+            vis[0] = list(rest)
+        room = _retimed(rng, room, vis, 'sparse_' + variant)
+        last = room
+        if len(linked_components([s for s in room['vis'] if len(set(s)) >= 2])) != 1:
+            continue
+        if not need_premise:
+            return room
+        try:
+            if decision_premise(room)['holds']:
+                return room
+        except Exception:  # noqa
+            return room
+    return last
+
+
 SEAM_EPS = [0.0, 0.0, 0.0, 1e-9, -1e-9, 1e-7, -1e-6, 1e-5, -1e-4, 1e-3]
 LAYOUTS = {
     'opposite2': [(1, 0), (-1, 0)],
@@ -554,9 +611,12 @@ def decision_premise(case):
             continue
         h = homes[0]
         for r in range(4):
-            if not all(is_true[r]) and not len(buckets[r]) < len(buckets[h]):
-                fail('vote: bucket %d of pair (%d, %d) holds a non-true candidate and %d >= %d entries of the true bucket %d'
-                     % (r, i, j, len(buckets[r]), len(buckets[h]), h))
+            # first largest bucket wins: a bucket with a non-true candidate must not be h, must be strictly smaller than
+            # bucket h when it comes before it and not larger when it comes after it
+            if not all(is_true[r]) and (r == h or (r < h and not len(buckets[r]) < len(buckets[h]))
+                                        or (r > h and not len(buckets[r]) <= len(buckets[h]))):
+                fail('vote: bucket %d of pair (%d, %d) holds a non-true candidate and has %d entries against %d of the '
+                     'true bucket %d' % (r, i, j, len(buckets[r]), len(buckets[h]), h))
         expected[(i, j)] = np.mean(buckets[h], axis=0)
     # ---- choice premise per sample and (first, other)
     for d in sols:
